@@ -183,6 +183,11 @@ def run(tier, seed):
         while len(pts) < 12:
             pts.add((rng.randrange(W), rng.randrange(H)))
         shapes.append([W, H, common.TlaSet([list(p) for p in sorted(pts)])])
+    # more rows than a 16-bit index holds, in either direction
+    for (W, H) in ((70001, 3), (2, 65537)):
+        pts = {(0, 0), (W - 1, 0), (0, H - 1), (W - 1, H - 1), (W // 2, H // 2), (255, 1) if W > 255 else (1, 255), (65535, 2) if W > 65535 else (1, 65535),
+               (65536, 0) if W > 65536 else (0, 65536)}
+        shapes.append([W, H, common.TlaSet([list(p_) for p_ in sorted(pts)])])
     common.write_data_module(wd, "FlipsBigCases", {"Shapes": common.TlaSet(shapes)})
     rb = common.run_tlc("FlipsBig", "MC_FlipsBig.cfg", wd, timeout=600)
     if rb.violated:
